@@ -1,5 +1,6 @@
 """C15 - regressor predictions are coherent with their distribution."""
 import ast
+from ..astutil import inline_temporaries as _it
 
 from ..common import norm_stmt
 from ..deps import names_in, base_name
@@ -99,6 +100,20 @@ def run(p, report, tier):
         ok5 = isinstance(rs, ast.Name) and rs.id == "random_state" and "random_state" in sy.all_param_names()
     report.add("R15.3", sy.qual, "rvs(size=(n_samples, len(X))) transposed", f"{sy.file}:{sy.node.lineno}", ok3)
     report.add("R15.5", sy.qual, "random_state forwarded to rvs", f"{sy.file}:{sy.node.lineno}", ok5)
+    # the seed is never judged by its truthiness (seed 0 is a seed): no `random_state or x`, `if not random_state`
+    truthy = []
+    for n in ast.walk(sy.node):
+        if isinstance(n, ast.BoolOp) and any(isinstance(v, ast.Name) and v.id == "random_state" for v in n.values):
+            truthy.append(n)
+        if isinstance(n, (ast.If, ast.IfExp, ast.While)):
+            t = n.test
+            while isinstance(t, ast.UnaryOp) and isinstance(t.op, ast.Not):
+                t = t.operand
+            if isinstance(t, ast.Name) and t.id == "random_state":
+                truthy.append(n.test)
+    report.add("R15.5", sy.qual, "random_state is never tested by truthiness", f"{sy.file}:{(truthy[0] if truthy else sy.node).lineno}",
+               not truthy, detail="only passed on / compared with None" if not truthy else
+               f"`{norm_stmt(truthy[0], 50)}` treats the seed 0 as 'not given': two calls with random_state=0 differ")
     sr = p.get_class("SklearnRegressor")
     smp = sr.methods.get("_sample")
     prd = sr.methods.get("predict")
@@ -130,8 +145,15 @@ def run(p, report, tier):
                 all_mean = bool(rets) and all("_label_mean" in ast.unparse(r.value) or
                                               (isinstance(r.value, ast.Name) and _derives(h, r.value.id, "_label_mean"))
                                               for r in rets)
-                okt = uses_mean and uses_std and all_mean
-                why = f"handler returns from _label_mean={all_mean}, uses _label_std={uses_std}"
+                fulls = [c for st in h.body for c in ast.walk(st) if isinstance(c, ast.Call) and c01.callname(c) in ("full", "full_like")]
+                bad_dtype = [c for c in fulls if any(k.arg == "dtype" and ast.unparse(k.value) not in ("float", "np.float64", "numpy.float64")
+                                                     for k in c.keywords)]
+                okt = uses_mean and uses_std and all_mean and not bad_dtype
+                if bad_dtype:
+                    why = (f"the fallback array `{norm_stmt(bad_dtype[0], 60)}` is created with a dtype that is not float: "
+                           "the label mean / std is truncated (std 0.2 -> 0)")
+                if not bad_dtype:
+                    why = f"handler returns from _label_mean={all_mean}, uses _label_std={uses_std}"
         report.add("R15.4", f.qual, "NotFittedError fallback built from _label_mean/_label_std", f"{f.file}:{f.node.lineno}", okt, detail=why)
     ad = AttrDefined(fit.node).run()
     for attr, dflt, thresh in (("_label_mean", "0", "0"), ("_label_std", "1", "1")):
@@ -153,9 +175,25 @@ def run(p, report, tier):
         report.add("R15.4", fit.qual, f"self.{attr} defined on every path with default {dflt}", f"{fit.file}:{fit.node.lineno}",
                    okd and form, detail=f"defined on all paths={okd}, default form={form}")
     for f in (pred, sy, prd, smp, fit):
-        da = DefiniteAssignment(f.node).run()
+        da = DefiniteAssignment(_it(f.node)).run()
         report.add("R15.4", f.qual, "all locals bound before use", f"{f.file}:{f.node.lineno}", not da.reports,
                    detail="; ".join(da.reports), nontrivial=False)
+    # ---- R15.6 the all-zero-weights guard of the kernel regressors looks at the labeled weights
+    from . import c12
+    report.rule("R15.6", "NICKernelRegressor.fit (inherited by NadarayaWatsonRegressor): statistics, stored training data "
+                "and the all-zero-weights guard read the per-sample arrays only through the labeled mask, so a fit "
+                "whose labeled samples all have weight 0 is rejected instead of yielding 0/0 (shared with C12 R12.1)",
+                floor=1)
+    nic = p.get_class("NICKernelRegressor")
+    nf = nic.methods.get("fit")
+    if nf is None:
+        raise AnalysisError("NICKernelRegressor.fit vanished")
+    sub = c01.Report_proxy(report, {"R12.1": "R15.6"})
+    mf = c12.MaskFlow(nf.node, "NICKernelRegressor.fit", sub, nf.file)
+    mf.run()
+    if not mf.reported:
+        report.add("R15.6", "NICKernelRegressor.fit", "per-sample arrays read through the labeled mask", f"{nf.file}:{nf.node.lineno}",
+                   bool(mf.mask_names), detail=f"{mf.sinks} sink(s) checked")
     report.assumptions += ["finiteness and sign of standard deviations and agreement as numbers are not decided",
                            "scipy.stats frozen distributions implement mean/std/entropy/rvs coherently"]
 
